@@ -184,6 +184,10 @@ pub fn funnel(rng: &mut Rng) -> (usize, Vec<(usize, usize)>, &'static str) {
         &[3, 11],
         &[6, 6],
     ];
+    funnel_with(rng, &shapes)
+}
+
+pub fn funnel_with(rng: &mut Rng, shapes: &[&[usize]]) -> (usize, Vec<(usize, usize)>, &'static str) {
     let sizes = shapes[rng.below(shapes.len())];
     let mut atts = Vec::new();
     let t = 0;
@@ -200,6 +204,15 @@ pub fn funnel(rng: &mut Rng) -> (usize, Vec<(usize, usize)>, &'static str) {
             atts.push((*d, attackers[i]));
         }
     }
+    match rng.below(4) {
+        0 => {
+            // self-attacking defenders: nothing is defended, only the empty set is admissible
+            for d in pool.iter() {
+                if rng.chance(2, 3) { atts.push((*d, *d)); }
+            }
+        }
+        _ => {}
+    }
     if rng.chance(1, 2) {
         // make defenders attack each other a bit so that the semantics are not trivial
         // at most 3 mutually attacking pairs: 2^pairs preferred extensions are enumerated by ID
@@ -209,6 +222,22 @@ pub fn funnel(rng: &mut Rng) -> (usize, Vec<(usize, usize)>, &'static str) {
         }
     }
     (next, atts, "funnel")
+}
+
+/// Two (or three) funnels side by side: several connected components that EACH push the hybrid
+/// encoder over its threshold, so that state kept by an encoder object between components shows.
+pub fn multi_funnel(rng: &mut Rng) -> (usize, Vec<(usize, usize)>, &'static str) {
+    let k = rng.range(2, 3);
+    let mut n = 0;
+    let mut atts = Vec::new();
+    for _ in 0..k {
+        let (fnn, fa, _) = funnel_with(rng, &[&[2, 2, 2, 2, 2], &[6, 6], &[4, 8], &[2, 2, 2, 2, 2, 2]]);
+        for (a, b) in fa {
+            atts.push((a + n, b + n));
+        }
+        n += fnn;
+    }
+    (n, atts, "multi_funnel")
 }
 
 /// Generates a framework with at most `max_n` arguments.
